@@ -46,6 +46,7 @@ def main():
     parser.add_argument('--no-tests', action='store_true')
     parser.add_argument('--scale', default='1')
     parser.add_argument('--all-checks', action='store_true')
+    parser.add_argument('--merge', action='store_true')
     args = parser.parse_args()
     with open(os.path.join(VERIF, 'mutants', 'mutants.json')) as stream:
         mutants = json.load(stream)
@@ -99,6 +100,14 @@ def main():
     if not args.only and not args.checks:
         with open(os.path.join(VERIF, 'selftest_report.json'), 'w') as stream:
             json.dump(report, stream, indent=1)
+    elif args.merge:
+        # replace / add the entries of this run in the stored report
+        path = os.path.join(VERIF, 'selftest_report.json')
+        stored = json.load(open(path))
+        fresh = {entry['name']: entry for entry in report}
+        stored = [fresh.pop(entry['name'], entry) for entry in stored] + list(fresh.values())
+        with open(path, 'w') as stream:
+            json.dump(stored, stream, indent=1)
 
 
 if __name__ == '__main__':
